@@ -482,6 +482,19 @@ def _size(vals):
     return s
 
 
+def enc_val(v):
+    """replay files: integers too wide for str() (common.jsonable) travel as hexadecimal text"""
+    if isinstance(v, int) and not isinstance(v, bool) and v.bit_length() > 12000:
+        return {"hexint": hex(v)}
+    return v
+
+
+def dec_val(v):
+    if isinstance(v, dict) and "hexint" in v:
+        return int(v["hexint"], 16)
+    return v
+
+
 def int_case(name, vals, form, acc):
     """Run one (operation, operands, form) on the three back-ends and compare each with exact arithmetic."""
     vals = tuple(vals)
@@ -498,11 +511,11 @@ def int_case(name, vals, form, acc):
         if tag:
             acc.seen("int_tags", (spec.key, tag))
         call = "%s%s form %s on %s" % (name, short(list(vals), 40), form, bname)
-        case = {"part": "int", "op": name, "vals": list(vals), "form": form}
+        case = {"part": "int", "op": name, "vals": [enc_val(v) for v in vals], "form": form}
         if not ok:
             got = "raises %s(%s)" % (out[1], out[2]) if out[0] == "x" else "returns %s" % short(out[1], 40)
             if exp[2]:
-                acc.observe("int/%s/%s%s/%s on %s: outside the documented domain (%s), not judged"
+                acc.observe("int/%s/%s%s on %s: outside the documented domain (%s), not judged"
                             % (spec.key, tag + "/" if tag else "", cls, bname, exp[2]))
                 acc.count("int_soft_mismatches")
             else:
@@ -521,6 +534,12 @@ def int_case(name, vals, form, acc):
 _BK = {"gmp": "IntegerGMP", "custom": "IntegerCustom", "native": "IntegerNative"}
 
 
+def _lit(v):
+    if isinstance(v, int) and not isinstance(v, bool) and abs(v) >= 10 ** 12:
+        return hex(v)
+    return repr(v)
+
+
 def _script(spec, vals, form, bname, exp):
     if not spec.expr:
         return None
@@ -528,12 +547,12 @@ def _script(spec, vals, form, bname, exp):
     cls = _BK[bname]
     return ("# stand-alone reproduction (needs only pycryptodome)\nimport operator\n"
             "from Crypto.Math._%s import %s as K\n"
-            "a, b, c = %r, %r, %r\n"
+            "a, b, c = %s, %s, %s\n"
             "w = %s\n"
             "try:\n    r = %s\n    print(type(r).__name__, r)\n"
             "except Exception as e:\n    print('raises', type(e).__name__, e)\n"
             "# exact arithmetic: %s\n"
-            % (cls, cls, ops[0], ops[1], ops[2], "K" if form in ("I", "A") else "(lambda v: v)", spec.expr,
+            % (cls, cls, _lit(ops[0]), _lit(ops[1]), _lit(ops[2]), "K" if form in ("I", "A") else "(lambda v: v)", spec.expr,
                _show_exp(exp).replace("\n", " ")))
 
 
